@@ -5,6 +5,7 @@ package main
 // flamego: it never decides a property's verdict.
 
 import (
+	"encoding/json"
 	"fmt"
 	"os"
 	"path/filepath"
@@ -13,6 +14,9 @@ import (
 	"sync"
 	"time"
 )
+
+// auditIncludeUnarmed: also run benign patches that still raise alarms (maintenance: -audit-all).
+var auditIncludeUnarmed = false
 
 type seedEdit struct {
 	File, Old, New string
@@ -25,6 +29,7 @@ type Seed struct {
 	Expect   []string // rule ids of which at least one must fire; "none" = benign
 	Edits    []seedEdit
 	Note     string
+	Patch    string // path of a stored unified diff (independent changes), applied instead of Edits
 }
 
 func parseSeeds(path string) ([]*Seed, error) {
@@ -96,7 +101,7 @@ func parseSeeds(path string) ([]*Seed, error) {
 		cur.Edits = append(cur.Edits, *ed)
 	}
 	for _, s := range out {
-		if s.Property == "" || len(s.Expect) == 0 || len(s.Edits) == 0 {
+		if s.Property == "" || len(s.Expect) == 0 || (len(s.Edits) == 0 && s.Patch == "") {
 			return nil, fmt.Errorf("seed %s incomplete", s.ID)
 		}
 		for i := range s.Edits {
@@ -116,35 +121,58 @@ type auditResult struct {
 }
 
 func runSeed(repo string, s *Seed) auditResult {
-	t0 := time.Now()
+	p, res := loadSeed(repo, s)
+	if p == nil {
+		return res
+	}
+	return evalSeed(p, s)
+}
+
+// loadSeed loads the variant a seed describes (nil Prog: the result says why not).
+func loadSeed(repo string, s *Seed) (*Prog, auditResult) {
 	ov := map[string][]byte{}
+	if s.Patch != "" {
+		b, err := os.ReadFile(s.Patch)
+		if err != nil {
+			return nil, auditResult{seed: s, status: "skipped", detail: err.Error()}
+		}
+		ov, err = applyUnified(repo, string(b))
+		if err != nil {
+			return nil, auditResult{seed: s, status: "skipped", detail: err.Error()}
+		}
+	}
 	for _, e := range s.Edits {
 		abs := filepath.Join(repo, e.File)
 		src, ok := ov[abs]
 		if !ok {
 			b, err := os.ReadFile(abs)
 			if err != nil {
-				return auditResult{seed: s, status: "skipped", detail: err.Error()}
+				return nil, auditResult{seed: s, status: "skipped", detail: err.Error()}
 			}
 			src = b
 		}
 		n := strings.Count(string(src), e.Old)
 		if e.All {
 			if n == 0 {
-				return auditResult{seed: s, status: "skipped", detail: fmt.Sprintf("pattern does not occur in %s", e.File)}
+				return nil, auditResult{seed: s, status: "skipped", detail: fmt.Sprintf("pattern does not occur in %s", e.File)}
 			}
 			ov[abs] = []byte(strings.ReplaceAll(string(src), e.Old, e.New))
 			continue
 		}
 		if n != 1 {
-			return auditResult{seed: s, status: "skipped", detail: fmt.Sprintf("pattern occurs %d times in %s (tree already edited?)", n, e.File)}
+			return nil, auditResult{seed: s, status: "skipped", detail: fmt.Sprintf("pattern occurs %d times in %s (tree already edited?)", n, e.File)}
 		}
 		ov[abs] = []byte(strings.Replace(string(src), e.Old, e.New, 1))
 	}
 	p, err := LoadRepo(repo, false, "", ov)
 	if err != nil {
-		return auditResult{seed: s, status: "broken", detail: "variant does not load: " + err.Error()}
+		return nil, auditResult{seed: s, status: "broken", detail: "variant does not load: " + err.Error()}
 	}
+	return p, auditResult{}
+}
+
+func evalSeed(p *Prog, s *Seed) auditResult {
+	t0 := time.Now()
 	c := NewCheck(p, s.Property, "quick", 0)
 	func() {
 		defer func() {
@@ -202,6 +230,7 @@ func runAudit(repo, verif, prop string, seed int64) int {
 		fmt.Println("ERROR", err)
 		return 2
 	}
+	seeds = append(seeds, storedPatchSeeds(verif)...)
 	// a seed with property ALL is expanded into one seed per property (used for benign noise edits)
 	var expanded []*Seed
 	for _, s := range seeds {
@@ -224,7 +253,7 @@ func runAudit(repo, verif, prop string, seed int64) int {
 	seeds = expanded
 	var sel []*Seed
 	for _, s := range seeds {
-		if prop == "" || prop == "all" || s.Property == prop || s.ID == prop || strings.HasPrefix(s.ID, prop+"@") {
+		if prop == "" || prop == "all" || s.Property == prop || s.ID == prop || strings.HasPrefix(s.ID, prop+"@") || (strings.HasSuffix(prop, "/") && strings.HasPrefix(s.ID, prop)) {
 			if _, ok := properties[s.Property]; ok {
 				sel = append(sel, s)
 			}
@@ -256,15 +285,38 @@ func runAudit(repo, verif, prop string, seed int64) int {
 	_ = baseline
 	results := make([]auditResult, len(sel))
 	var wg sync.WaitGroup
-	sem := make(chan struct{}, 8)
+	sem := make(chan struct{}, 12)
+	// seeds that describe the same variant (ALL-expansions) share one load
+	groups := map[string][]int{}
+	var order []string
 	for i, s := range sel {
+		base := s.ID
+		if k := strings.LastIndex(base, "@"); k >= 0 {
+			base = base[:k]
+		}
+		if _, ok := groups[base]; !ok {
+			order = append(order, base)
+		}
+		groups[base] = append(groups[base], i)
+	}
+	for _, base := range order {
+		idx := groups[base]
 		wg.Add(1)
-		go func(i int, s *Seed) {
+		go func(idx []int) {
 			defer wg.Done()
 			sem <- struct{}{}
 			defer func() { <-sem }()
-			results[i] = runSeed(repo, s)
-		}(i, s)
+			p, res := loadSeed(repo, sel[idx[0]])
+			for _, i := range idx {
+				if p == nil {
+					r := res
+					r.seed = sel[i]
+					results[i] = r
+					continue
+				}
+				results[i] = evalSeed(p, sel[i])
+			}
+		}(idx)
 	}
 	wg.Wait()
 	counts := map[string]int{}
@@ -285,4 +337,49 @@ func runAudit(repo, verif, prop string, seed int64) int {
 		return 1
 	}
 	return 0
+}
+
+// storedPatchSeeds turns the independently produced changes kept under
+// /verif/seeded (property-breaking: the own property's check must fire) and
+// /verif/benign (behaviour-preserving: every check must stay quiet) into seeds.
+func storedPatchSeeds(verif string) []*Seed {
+	var out []*Seed
+	ms, _ := filepath.Glob(filepath.Join(verif, "seeded", "*", "meta.json"))
+	sort.Strings(ms)
+	for _, m := range ms {
+		b, err := os.ReadFile(m)
+		if err != nil {
+			continue
+		}
+		var meta struct {
+			ID        string `json:"id"`
+			Property  string `json:"property"`
+			Confirmed bool   `json:"confirmed"`
+		}
+		if json.Unmarshal(b, &meta) != nil || !meta.Confirmed {
+			continue
+		}
+		out = append(out, &Seed{ID: "seeded/" + meta.ID, Property: meta.Property, Expect: []string{"any"}, Patch: filepath.Join(filepath.Dir(m), "patch.diff"), Edits: nil})
+	}
+	ms, _ = filepath.Glob(filepath.Join(verif, "benign", "*", "meta.json"))
+	sort.Strings(ms)
+	for _, m := range ms {
+		b, err := os.ReadFile(m)
+		if err != nil {
+			continue
+		}
+		var meta struct {
+			ID       string `json:"id"`
+			Accepted bool   `json:"accepted"`
+			Armed    bool   `json:"armed"` // quiet when last evaluated: part of every audit; unarmed ones are open false alarms (DESIGN.md)
+		}
+		if json.Unmarshal(b, &meta) != nil || !meta.Accepted {
+			continue
+		}
+		if !meta.Armed && !auditIncludeUnarmed {
+			continue
+		}
+		out = append(out, &Seed{ID: "benign/" + meta.ID, Property: "ALL", Expect: []string{"none"}, Patch: filepath.Join(filepath.Dir(m), "patch.diff")})
+	}
+	return out
 }
